@@ -372,6 +372,9 @@ class Point<T>(val x: T, private val y: Pair<T, Pair<int, Str>>) : Comparable<Po
     let { x, y as { e0 as second, e1 as { e0, e1 as name } } } = this;
     let (a, (b, c)) = (1, (2, 3));
     let f = (p: int, q) -> p + q + a;
+    let fold = (acc, item: int) -> acc + item;
+    let pick = (u, v, w: int, z) -> if w > 0 { u } else { v + z };
+    let none = () -> 1;
     let g: (int) -> Pair<int, int> = (n) -> Pair.init<int, int>(n, n);
     if let { x as again, y as _ } = this { first } else { second }
   }
